@@ -22,11 +22,11 @@ from . import localsig
 _BLOCKS = ("body", "orelse", "finalbody")
 
 
-def _chain(e: ast.AST) -> Optional[Tuple[str, Set[str]]]:
+def _chain(e: ast.AST, plain: bool = False) -> Optional[Tuple[str, Set[str]]]:
     """(base name, attribute names) of a pure attribute / constant-subscript chain, or of a comparison of such a chain
     with constants (`version >= 3`: an explaining boolean)"""
     if isinstance(e, ast.Compare) and all(isinstance(c, ast.Constant) for c in e.comparators) and not isinstance(e.left, ast.Name):
-        return _chain(e.left)
+        return _chain(e.left, plain)
     attrs: Set[str] = set()
     n = 0
     while True:
@@ -39,7 +39,7 @@ def _chain(e: ast.AST) -> Optional[Tuple[str, Set[str]]]:
             e = e.value
             n += 1
         elif isinstance(e, ast.Name):
-            return (e.id, attrs) if n else None
+            return (e.id, attrs) if (n or plain) else None
         else:
             return None
 
@@ -108,7 +108,7 @@ def inline_aliases_in(fn: ast.AST, unknown: Set[str]) -> int:
             if not (isinstance(st, ast.Assign) and len(st.targets) == 1):
                 continue
             t = st.targets[0]
-            ch = _chain(st.value)
+            ch = _chain(st.value, plain=isinstance(st.value, ast.Name))
             if isinstance(t, ast.Name) and t.id in unknown and ch and ch[0] != t.id:
                 cands.setdefault(t.id, []).append((b, st, st.value))
             elif isinstance(t, ast.Name) and t.id in unknown and _cond_alias(st.value):
@@ -133,7 +133,7 @@ def inline_aliases_in(fn: ast.AST, unknown: Set[str]) -> int:
         ok = True
         for b, st, repl in lst:
             ca = _cond_alias(repl)
-            ch = _chain(ca[1] if ca else repl) or (repl.id if isinstance(repl, ast.Name) else None, set())
+            ch = _chain(ca[1] if ca else repl, plain=True) or (repl.id if isinstance(repl, ast.Name) else None, set())
             base, attrs = ch
             cond_names = {x.id for x in ast.walk(ca[0]) if isinstance(x, ast.Name)} if ca else set()
             i = next(k for k, s in enumerate(b) if s is st)
@@ -336,7 +336,9 @@ def unknown_locals(tree: ast.Module, modname: str) -> Dict[str, Set[str]]:
                 continue
             ref = {}  # a known function without locals in the reference tree
         sigs = localsig.signatures(fn)
-        out[q] = {nm for nm, key in sigs.items() if key not in ref and nm not in ref.values()}
+        # unknown = defined in a way the reference function does not define any local (a reference *name* that is now bound
+        # to something else - `for cur in _iter(..)` after inlining: `cur = <cursor>` - is unknown in this sense too)
+        out[q] = {nm for nm, key in sigs.items() if key not in ref}
     return out
 
 
